@@ -92,6 +92,6 @@ Definition s_mod_float (x y : f64) : f64 :=
 (* math.fmod: remainder of the division that rounds the quotient towards zero *)
 Definition s_math_fmod (x y : num) : res :=
   match x, y with
-  | NInt a, NInt b => if b =? 0 then RErr EOther else ROk (NInt (Z.rem a b))
+  | NInt a, NInt b => if b =? 0 then RErr EModZero else ROk (NInt (Z.rem a b))
   | _, _ => ROk (NFlt (fmod (tofloat x) (tofloat y)))
   end.
